@@ -67,7 +67,7 @@ pub use ast::*;
 pub use cmp::{Mismatch, check_result, fmt_row, fmt_rows, multiset_diff, sequence_diff, sortedness_violation, value_matches};
 pub use eval::{EvalOptions, RefResult, TopK, deterministic_on, eval, eval_with};
 pub use expr::{ExprCtx, Flags, RefError, RowCtx, eval_expr};
-pub use r#gen::{GenConfig, SqlCase, case_strategy, features, query_strategy, tables_strategy};
+pub use r#gen::{GenConfig, SqlCase, TableSchema, build_query, case_strategy, features, has_outer_refs, is_correlated, query_strategy, tables_strategy};
 pub use print::{expr_to_sql, to_sql};
 pub use value::*;
 
